@@ -447,9 +447,7 @@ func runHist[E any](et *etype[E], c HistCase) (out pbt.Outcome, st histStats) {
 				lo := mod(op.B, n+1)
 				k := mod(op.C, n-lo+1)
 				if k >= 1 && k <= sp && lo > idx {
-					// excluded shape: see the Rule of C12.alias (the unchanged library shifts the values before it reads them)
-					lo = mod(op.B, idx+1)
-					lab("hist:InsertSlice(self):excluded-shape-remapped")
+					lab("hist:InsertSlice(self):values-from-behind-the-index-inserted-in-place")
 				}
 				hi := lo + k
 				var vals sl[E]
